@@ -152,18 +152,28 @@ theorem accounted_step {v : Variant} {s s' : State} {e : Event} (ha : Accounted 
       simp [State.goto] at this h0 ⊢; omega
   | readQ i =>
     simp only [step] at h
-    split at h <;> try (simp at h)
-    rename_i hi
-    subst h
-    have := runCount_set (.readQ (!s.queue.isEmpty)) t0 hi
-    simp [State.goto] at this h0 ⊢; omega
+    split at h
+    · rename_i hi
+      simp at h; subst h
+      have := runCount_set (.readQ (!s.queue.isEmpty)) t0 hi
+      simp [State.goto] at this h0 ⊢; omega
+    · rename_i z hi
+      simp at h; subst h
+      have := runCount_set (if s.queue.isEmpty && z then .willWait else .unlocking) t0 hi
+      cases z <;> cases hq : s.queue <;> simp [State.goto, hq] at this h0 ⊢ <;> omega
+    · simp at h
   | readKill i =>
     simp only [step] at h
-    split at h <;> try (simp at h)
-    rename_i p hi
-    subst h
-    have := runCount_set (if !p && s.kill == 0 then .willWait else .unlocking) t0 hi
-    cases p <;> by_cases hk : s.kill = 0 <;> simp [State.goto, hk] at this h0 ⊢ <;> omega
+    split at h
+    · rename_i p hi
+      simp at h; subst h
+      have := runCount_set (if !p && s.kill == 0 then .willWait else .unlocking) t0 hi
+      cases p <;> by_cases hk : s.kill = 0 <;> simp [State.goto, hk] at this h0 ⊢ <;> omega
+    · rename_i hi
+      simp at h; subst h
+      have := runCount_set (.readK (s.kill == 0)) t0 hi
+      simp [State.goto] at this h0 ⊢; omega
+    · simp at h
   | wWait i =>
     simp only [step] at h
     split at h <;> try (simp at h)
